@@ -850,9 +850,11 @@ fn in_child_err(e: &RealErr) -> bool {
 fn diagnose_compute(pre: &Machine, repeat: &Repeat, ctx: &Ctx, rep: &mut Report) -> Option<Divergence> {
     let mut pre = pre.clone();
     let n = pre.stack.pop()?;
-    if !(1..=2000).contains(&n) {
+    if !(1..=10_000).contains(&n) {
         return None;
     }
+    // at most ~300 children are re-run: the first 64 and an even spread over the rest
+    let stride = (n / 256).max(1);
     rep.count("compute.diagnosed");
     let dctx = Ctx {
         ops: ctx.ops.clone(),
@@ -863,7 +865,7 @@ fn diagnose_compute(pre: &Machine, repeat: &Repeat, ctx: &Ctx, rep: &mut Report)
         cost: ctx.cost.clone(),
         limit: u64::MAX,
     };
-    for i in 0..n {
+    for i in (0..n).filter(|i| *i < 64 || i % stride == 0) {
         let mut stack = pre.stack.clone();
         if stack.len() >= model::STACK_MAX {
             return None;
